@@ -203,6 +203,9 @@ func (sc *SpecCtx) call(x *SExpr) Val {
 	case "metric": // metric(name): accumulated value of Stat.Add for that name
 		n := sc.eval(args[0])
 		return mkReal(sel(sc.arr("G|metric", "(Array Int Real)"), n.C[0]))
+	case "delok": // ghost: number of Deleter.Delete call-outs so far that returned nil
+		e.ghostInit["G|delok"] = "(and (>= $ 0) (< $ 4611686018427387904))"
+		return Val{T: tInt, C: []string{sc.arr("G|delok", "Int")}}
 	case "clockReads": // clock readings made by this function so far
 		e.ghostInit["G|nclk"] = "(>= $ 0)"
 		return Val{T: tInt, C: []string{fmt.Sprintf("(- %s %s)", sc.arr("G|nclk", "Int"), st.arrIn(sc.old, "G|nclk", "Int"))}}
@@ -284,7 +287,7 @@ func (sc *SpecCtx) call(x *SExpr) Val {
 		return Val{T: tUint64, C: []string{"(xxh " + v.C[0] + ")"}}
 	case "allocated":
 		v := sc.eval(args[0])
-		return mkBool(allocatedIn(v.C[0], sc.arr(allocName, "Int")))
+		return mkBool(and(not(eq(v.C[0], "0")), allocatedIn(v.C[0], sc.arr(allocName, "Int"))))
 	case "fresh": // allocated during this call
 		v := sc.eval(args[0])
 		return mkBool(and(fmt.Sprintf("(>= %s %s)", v.C[0], st.arrIn(sc.old, allocName, "Int")), allocatedIn(v.C[0], sc.arr(allocName, "Int"))))
